@@ -264,14 +264,25 @@ class SimDisk:
         if not isinstance(path, str):
             path = os.fsdecode(path)
         self.yield_point("open")
-        if mode in ("w", "wt"):
+        binary = "b" in mode
+        kind = mode.replace("b", "").replace("t", "")
+        if kind in ("w", "a", "x"):
+            if kind == "x" and path in self.files:
+                self.log("open_x_exists", path)
+                raise FileExistsError(17, "File exists", path)
             hid = len(self.handles)
-            self.log("open_w", path, hid=hid)
-            self.files[path] = bytearray()  # O_TRUNC at open time, like the real call
+            self.log("open_w", path, hid=hid, mode=mode)
+            if kind != "a" or path not in self.files:
+                self.files[path] = bytearray()  # O_TRUNC / O_CREAT at open time, like the real call
             raw = SimRawW(self, path, hid)
+            raw.pos = len(self.files[path])
             self.handles.append(raw)
+            if binary and buffering == 0:
+                return raw  # unbuffered binary: the caller talks to write(2) directly
             bufsize = self.buffer_size if buffering in (-1, None) else buffering
             buffered = io.BufferedWriter(raw, buffer_size=max(1, bufsize))
+            if binary:
+                return buffered
             text = SimTextW(
                 self, path, hid, buffered, encoding=encoding or self.encoding, errors=errors,
                 newline=newline,
@@ -279,6 +290,12 @@ class SimDisk:
             if self.chunk_size:
                 text._CHUNK_SIZE = self.chunk_size
             return text
+        if kind == "r" and binary:
+            if path not in self.files:
+                self.log("open_r_missing", path)
+                raise FileNotFoundError(2, "No such file or directory", path)
+            self.log("open_r", path, hid=-1, mode=mode)
+            return io.BytesIO(bytes(self.files[path]))
         if mode in ("r", "rt"):
             if path not in self.files:
                 self.log("open_r_missing", path)
